@@ -2,6 +2,7 @@
 //! imap-proto / tokio-imap code on generated inputs and prints canonical result lines.
 mod bodystruct;
 mod builder;
+mod crash;
 mod dump;
 mod genresp;
 mod parse;
@@ -17,6 +18,9 @@ fn main() {
     }
     match args[1].as_str() {
         "tags" => tags::main(&args[2..]),
+        "crash" => crash::parent(),
+        "crash-child" => crash::child(),
+        "crash-gen" => crash::gen(&args[2..]),
         "parse" => parse::main(&args[2..]),
         "builder" => builder::main(&args[2..]),
         "bodystruct" => bodystruct::main(&args[2..]),
